@@ -1,7 +1,7 @@
 add("C02", "exploration",
     "Generated raw HTTP/1.1 requests (grammar over method, escaped/unclean targets, queries, repeated and long header fields (names that merely resemble hop-by-hop fields included), "
-    "hop-by-hop fields, Content-Length and chunked bodies up to MiBs; usually one at a time, sometimes 2-6 at once) are sent through the real server and agent binaries (a quarter of the cases through an agent with session tracking, "
-    "websocket shim and banner enabled, with cookie-less requests outside the shim path); a "
+    "realistic values of well-known fields and a browser navigation profile, hop-by-hop fields, Content-Length and chunked bodies up to MiBs; usually one at a time, sometimes 2-6 at once) are sent through the real server and agent binaries (a quarter of the cases through an agent with session tracking, "
+    "websocket shim, banner and every other optional flag enabled, with cookie-less requests outside the shim path); a "
     "recording raw-TCP backend compares request line, Host, every end-to-end field's ordered values and the body byte for byte. "
     "Sampling, not proof: the input space is unbounded.",
     "Trusts the harness's own raw parser/serialiser and that net/http semantics of the pinned Go toolchain are the deployment's. "
@@ -12,7 +12,7 @@ add("C03", "exploration",
     "fields, three framings, chunk sizes incl. 1-byte first chunk, declared/undeclared/comma-joined trailers, pauses between writes) "
     "are served by a scripted raw-TCP backend and by an h2c backend behind the real agent (-race) and server binaries; a raw client "
     "compares status, every end-to-end field in both directions (nothing lost, nothing invented), body and trailers. A third part repeats this through an agent with session tracking, "
-    "websocket shim and banner enabled for responses those features must leave alone (no Set-Cookie, no HTML); a fourth kills the agent in the middle of a response "
+    "websocket shim, banner and every other optional flag (--debug, injection, rewrite-host, ...) enabled for responses those features must leave alone (no Set-Cookie, no HTML); a fourth kills the agent in the middle of a response "
     "(the client must not get a response that ends regularly with part of the body). Bodies may be gzip-encoded and requests may lack Accept-Encoding; a field may be header and trailer at once. Race reports of "
     "the binaries count as violations. Sampling of inputs and schedules, not proof.",
     "Trusts net/http's client-side response parser used by the harness client. Date and Content-Type added by the front hop when the "
@@ -32,7 +32,7 @@ add("C04", "exploration",
     "Agent part: generated histories of pending-list replies (repeats, permutations, overlapping subsets, full re-listing as the App "
     "Engine proxy does, 999/1000-ID boundary cases) with generated gaps and fetch/upload/backend delays are served by a fake proxy to the "
     "real agent binary; a counting backend and the upload log give invocations per ID (must be exactly 1 for every listed ID). Server "
-    "part: 1-16 concurrent harness pollers against the real stand-alone proxy while clients arrive (incl. bursts of 99-250 clients queued before the first poll); in the agent part some requests have their first three response uploads ended without an answer and are listed again, and one request may stay at the backend while 1001 others come and go before it is listed again (or is named in every list reply meanwhile and listed once more after its response was uploaded), and ids may be listed again after completion; the multiset of listed IDs must be "
+    "part: 1-16 concurrent harness pollers against the real stand-alone proxy while clients arrive (incl. bursts of 99-250 clients queued before the first poll); in the agent part some requests have their first three response uploads ended without an answer and are listed again, and one request may stay at the backend while 1001 others come and go before it is listed again (or is named in every list reply meanwhile and listed once more after its response was uploaded), and ids may be listed again after completion; in the server part one client may pause 11-12.5 s inside its body while the pollers go on; the multiset of listed IDs must be "
     "duplicate-free and complete, and resolve to distinct clients. Histories and schedules are sampled.",
     "The 1000-entry window is taken from the property text; IDs of earlier cases still occupy the agent's LRU (they are older, so they "
     "are evicted first). app/store's own listing is exercised by C19, not here.",
@@ -41,7 +41,7 @@ add("C05", "exploration",
     "Generated chunk-size/pause vectors (1 B .. 4 MiB, 1-50 chunks, chunked and Content-Length framing, octet-stream and text/html) x five agent configurations (default, session tracking, shim, banner, all) are produced by a scripted backend "
     "in lock-step with a fake proxy that incrementally decodes the agent's upload: chunk i+1 is only produced once every byte of chunk i "
     "was observed at the proxy. A chunk withheld for 5 s while the producer is idle and delivered only after the producer is released "
-    "is a confirmed violation; the reassembled body is also compared. One case in eight produces 2-48 such responses at the same time (every backend handler waits after its first chunk until the proxy has seen the first chunk of all of them). 'Bounded time' is checked against that generous bound only.",
+    "is a confirmed violation; the reassembled body is also compared. One case in six follows a small response whose upload the proxy turned down (411, 501, 413, 4xx, 5xx) right after the headers. One case in eight produces 2-48 such responses at the same time (every backend handler waits after its first chunk until the proxy has seen the first chunk of all of them). 'Bounded time' is checked against that generous bound only.",
     "Normal relay latency is milliseconds (two orders of magnitude below the bound). A stall without confirmation is reported as "
     "inconclusive, never as a violation.",
     "property-based testing (rapid): generated chunk vectors, lock-step progress oracle with release-and-confirm", "3/C05")
@@ -65,7 +65,7 @@ add("C08", "exploration",
     "two orders of magnitude (both confirmed on a second run). Connection-level failures may be repeated once inside Go's HTTP transport; they are therefore judged by call counts per window (c), never by single gaps.",
     "property-based testing (rapid) against a closed-form oracle; native go fuzzing; generated failure patterns with timestamp lower bounds", "3/C08")
 add("C09", "exploration",
-    "Generated client header sets (forged/repeated/re-cased identity fields, Authorization fields, Connection fields nominating those names as hop-by-hop, noise) are sent as plain requests and "
+    "Generated client header sets (forged/repeated/re-cased identity fields, Authorization fields, Connection fields nominating those names as hop-by-hop, noise) are sent as plain requests (also on paths that merely resemble the shim prefix, such as /shim.js or /shimapi/v1/data) and "
     "as websocket-shim open requests through 16 agent binaries, one per combination of --forward-user-id, --strip-credentials, shim and "
     "session tracking, with generated proxy-asserted identities; a recording backend (HTTP and websocket handshake) checks the "
     "exact-one-value / absent-field predicate, and pass-through when a flag is off. Inputs are sampled; the 16 configurations are all covered.",
@@ -74,15 +74,15 @@ add("C09", "exploration",
 add("C20", "exploration",
     "Health part: generated pass/fail sequences of health checks x thresholds 1-4 (half of the scenarios with one or two checks answered only after 1.3-3.3 s, i.e. slower than the 1 s interval) are served by a scripted backend to the real agent binary; "
     "a counter model over the observed check sequence decides when the agent must exit (and that it must not exit earlier), and fake-proxy "
-    "timestamps decide that no pending-list call precedes the first passing check. Shutdown part: signal x grace period x request phase (idle, listed, at the backend, uploading, list calls failing since shortly before the signal) x "
+    "timestamps decide that no pending-list call precedes the first passing check. Shutdown part: signal x grace period x request phase (idle, listed, at the backend, uploading, list calls failing since shortly before the signal, still waiting for the first passing health check) x "
     "backend latency scenarios; one-sided time bounds on exit, a list-call cut-off rule and complete upload of the request that was at the "
     "backend or already being uploaded. Scenarios are sampled (whole-second granularity of the health interval limits the count).",
     "Time bounds are one-sided and generous (>=0.5 s slack); phases other than 'at backend' are only checked for exit timing and the "
     "list-call rule. A bound hit only once is reported as inconclusive.",
     "property-based testing (rapid): generated health-check histories against a counter model; generated signal/phase/grace scenarios with one-sided time bounds", "3/C20")
 add("C07", "fault_enumeration",
-    "50 fault kinds over all injection points (pending list, request fetch, backend connect/headers/body, response upload, shim "
-    "endpoints incl. a real shim session fed odd message shapes and shim opens whose backend drops, garbles, half-answers or refuses the handshake or is unreachable, transport-level failures of list and fetch calls, three-digit status codes outside 100-599, conflicting lengths, unreachable backend) are (a) enumerated exhaustively at three positions of a stream of healthy requests and (b) inserted "
+    "53 fault kinds over all injection points (pending list, request fetch, backend connect/headers/body, response upload, shim "
+    "endpoints incl. a real shim session fed odd message shapes and shim opens whose backend drops, garbles, half-answers or refuses the handshake or is unreachable, uploads of streamed responses turned down early (once and 70 times in a row), transport-level failures of list and fetch calls, three-digit status codes outside 100-599, conflicting lengths, unreachable backend) are (a) enumerated exhaustively at three positions of a stream of healthy requests and (b) inserted "
     "at generated positions/multiplicities into generated streams of 10-60 healthy concurrent requests, against the real agent binary "
     "(-race, shim and session tracking on) behind a fake proxy and a faulty raw backend. Invariant: agent alive, no race/fatal/panic "
     "output, every healthy request (before, during, after) uploaded with its own content, 502 when the backend is unreachable.",
@@ -94,13 +94,13 @@ add("C10", "exploration",
     "path/domain scoping, Secure/HttpOnly, exotic Set-Cookie lines a strict parser skips, 1xx interim responses in front of the final one (relayed the way httputil.ReverseProxy does), client-supplied extra cookies; cache limit, lifetime and SSL override generated) run against "
     "the sessions.Cache handler in-process and are compared step by step with one independent net/http/cookiejar per session id; every "
     "cookie value carries its session tag so a cross-session leak is visible independently of the model; attributes and expiry of the "
-    "issued session cookie are checked. A concurrent part runs 8-32 goroutines over shared/different sessions under -race; another releases 2-16 requests together in a session whose id the cache does not hold (agent restarted, session evicted), each answered with a cookie of its own, and requires the next request of the session to carry them all (found the repaired defect F10e).",
+    "issued session cookie are checked. A concurrent part runs 8-32 goroutines over shared/different sessions under -race; another releases 2-16 requests together in a session whose id the cache does not hold (agent restarted, session evicted), each answered with a cookie of its own, and requires the next request of the session to carry them all (found the repaired defect F10e); a fifth part runs shim opens of several sessions through websockets.Proxy with the session handler around its open handler against a backend that sets cookies in handshake responses (handshake cookies must belong to the opener's session).",
     "The cookiejar differential is asserted while no more distinct session ids than the configured limit were used (eviction is allowed beyond); "
     "client cookie values are simple tokens in the generated histories; values outside Go's strict cookie grammar are covered by one fixed scenario (the repaired defect F10d). Interleavings are sampled, the race detector amplifies.",
     "stateful property-based testing (rapid): generated request/Set-Cookie histories, differential against net/http/cookiejar + tag isolation; concurrent stress under the race detector", "3/C10")
 add("C11", "exploration",
     "Delivery: generated operation sequences (data posts of 1-30 messages, backend bursts of 1-40 messages beyond the 10-slot buffers, polls, "
-    "a post concurrent with a poll, and in a third of the cases a final backend burst of 0-25 messages followed by a regular backend close, after which polls must deliver everything before they report the session closed; text = arbitrary valid UTF-8, binary = arbitrary bytes, sizes 0..1 MiB; shim protocol versions 0 and 1) run "
+    "a post concurrent with a poll, and in a third of the cases a final backend burst of 0-25 messages followed by a regular backend close, after which polls must deliver everything before they report the session closed, and in a quarter of the cases a neighbouring session is closed and a further one opened and used meanwhile; text = arbitrary valid UTF-8, binary = arbitrary bytes, sizes 0..1 MiB; shim protocol versions 0 and 1) run "
     "against websockets.Proxy in-process with a real gorilla/websocket backend and are compared with model queues in both directions. "
     "Injection: generated JSON/non-JSON messages x request headers with injection enabled, compared by a JSON-value oracle (byte identity "
     "for everything that is not a single JSON object with a resource.headers object, e.g. two concatenated documents or an object followed by a trailer); a native fuzz target repeats the byte-identity half in the "
@@ -115,7 +115,7 @@ add("C12", "exploration",
     "websockets.Proxy in-process under -race; a state-machine model of the session table yields the allowed status set per call; every "
     "call must be answered (a panic is caught per call, an unanswered call after 15 s is a wedge); a new session id must differ from the id of every session still open; the backend must observe client closes, "
     "and polls after a backend close must deliver the queued messages and then 400. Interleavings inside a group are sampled (hundreds of "
-    "groups per run), not enumerated.",
+    "groups per run), not enumerated. One fixed scenario runs in the background of every run: an open call whose backend takes the upgrade request and never answers it must be answered within 60 s while other opens go on.",
     "Polls are only issued when a message or a close is pending (the 20 s / 408 path is sampled once in the thorough tier). For calls racing "
     "a close, or following an asynchronous backend close, the allowed set is {200,400}; once the closing handshake of a backend close has completed a data post must be answered 400.",
     "stateful property-based testing (rapid): generated call histories and barrier-released concurrent groups against a session-table model", "3/C12")
@@ -123,7 +123,7 @@ add("C13", "exploration",
     "Generated shim open bodies (every URL syntax class of net/url: hierarchical with foreign hosts, scheme-relative, path-only, opaque, "
     "empty, userinfo, IPv6 literals, odd ports, fragments, backslashes, control bytes, plus arbitrary byte strings; with and without --rewrite-websocket-host, foreign Host headers, backend paths that redirect the handshake) run against "
     "websockets.Proxy in-process while the network dialer used by the code is replaced by a recorder that refuses every address but the "
-    "backend's; confinement oracle on every recorded address, and path/query/Host of the handshake when it reaches the backend (Host = the backend, or with --rewrite-websocket-host the host the client addressed; never the host named in the body). A second "
+    "backend's; confinement oracle on every recorded address, and path/query/Host of the handshake when it reaches the backend (Host = the backend, or with --rewrite-websocket-host the host the client addressed; never the host named in the body); in one case in eight the backend then ends the opened session (abort or close code 1000/1001/1011) and the client polls and posts on - still no dial to any other address. A second "
     "property sends generated requests outside the shim prefix and compares what the wrapped handler receives. A native fuzz target "
     "(seeded with one example per class) repeats the confinement oracle on raw bytes in the thorough tier.",
     "Observes dials made through websocket.DefaultDialer (what the code uses); a change that dials through another path would need the "
@@ -137,7 +137,7 @@ add("C14", "exploration",
     "offsets around the 1024-byte window (ASCII, multi-byte and invalid-UTF-8 filler), bodiless responses and generated read segmentations run through websockets.ShimBody (optionally followed by the "
     "banner handler); the body must be the original or the original with exactly one script block spliced after the first <head>, and "
     "must be spliced when <head> lies inside the first read. Concurrent banner part: 8-32 goroutines x 5-20 framed requests for distinct URLs through one banner.Proxy with a slow writer; "
-    "each page must equal the page served for the same URL on its own. Native fuzz targets repeat both oracles on raw inputs in the thorough tier.",
+    "each page must equal the page served for the same URL on its own. History part: 2-8 requests over URLs easily taken for one another (percent-encoding, empty query, letter case, parameter order) through one instance; every answer must equal what a fresh instance serves for the same request. Native fuzz targets repeat both oracles on raw inputs in the thorough tier.",
     "The predicate goes by the media type alone (parameters such as profile=\"text/html\" do not make a document HTML) and is liberal about letter case (the code may recognise fewer documents as HTML, never more); the frame's src is read the way a browser reads it (character references decoded, resolved against the page). The handler-level "
     "pipeline (ModifyResponse then ResponseWriter) is rebuilt by the harness the way agent.go wires it.",
     "property-based testing (rapid) + native go fuzzing: differential feature-on vs. wrapped response under a reference predicate; splice-validity oracle", "3/C14")
@@ -168,12 +168,12 @@ add("C18", "exploration",
     "(adding a non-matching backend changes nothing) are checked as well. The thorough tier enumerates all registries of <= 3 single-prefix "
     "backends exhaustively (about 23 000 registries x 8 paths). A process-level part (answered-then-dead) runs the real App Engine proxy binary: a user's GET is answered, the backend "
     "is deleted or its last poll aged beyond the window, and the same GET and a fresh one must then be answered 404 (a live control must be served).",
-    "The fake datastore implements only what the code uses (kind queries with equality/inequality filters in key order, strong consistency); "
+    "The fake datastore implements only what the code uses (kind queries with equality/inequality filters in key order, strong consistency; the fake memcache implements set policies, expiry, compare-and-swap, Increment and FlushAll); "
     "eventual consistency and index lag of the real Datastore are outside the model. Ages are set 2 s away from the window boundary.",
     "property-based testing (rapid) against an independent set-valued specification; metamorphic and determinism relations; bounded-exhaustive enumeration in the thorough tier", "3/C18")
 add("C17", "exploration",
     "Generated call histories (admin API calls by five kinds of caller, agent pending/request/response calls with every combination of "
-    "OAuth identity (incl. a valid token without e-mail address), backend id and request id class, re-registration of a backend id for another agent account or end user, end-user requests by owners, other users and anonymous callers, two users on the same path prefix fetching the same cacheable long URL) run against the three "
+    "OAuth identity (incl. a valid token without e-mail address), backend id and request id class, re-registration of a backend id for another agent account or end user, end-user requests by owners, other users and anonymous callers, two users on the same path prefix fetching the same cacheable long URL; in half of the histories all end-user requests share one trace id and request id header) run against the three "
     "services of the real App Engine proxy binary (-race) on a wire-level fake of datastore_v3/memcache/user, the harness playing the App "
     "Engine front end; a reference access-control model gives the status class of every call (401/403/404/400/200), and the registry, the "
     "Completed flags and the routing of stored requests are read back from the fake datastore after each step; clients must receive exactly "
